@@ -97,6 +97,13 @@ Definition check_dcase (c : dcase) : verdict :=
   vcombine (dviol_from 0 dminit (dc_ops c) (dc_obs c))
            (dmism_from 0 dinit (dc_ops c) (dc_obs c)).
 
+(* The action hashes the harness uses (named here so that case files do not
+   spell out 64-character literals in every operation). *)
+Definition hash0 : string := "aaaaaaaaaaaaaaaa000000000000000000000000000000000000000000000000".
+Definition hash1 : string := "aaaaaaaaaaaaaaaa111111111111111111111111111111111111111111111111".
+Definition hash2 : string := "0123456789012345222222222222222222222222222222222222222222222222".
+Definition hash3 : string := "bbbbbbbbbbbbbbbbbbbbbbbbbbbbbbbbbbbbbbbbbbbbbbbbbbbbbbbbbbbbbbbb".
+
 Inductive case :=
 | CIdle (c : icase)
 | CDirs (c : dcase).
